@@ -85,13 +85,14 @@ func parseKase(s string) (kase, error) {
 // the response, over (client certificate ‖ client nonce), and not mangled.
 // This is by construction of the scripted server, not a model judgement.
 func (k kase) sigValid() bool {
-	keyOfCert := map[string]string{"own": "own", "otherRsa": "other"}[k.cert]
+	// a chain is identified by its FIRST certificate
+	keyOfCert := map[string]string{"own": "own", "otherRsa": "other", "chainOwnOther": "own", "chainOtherOwn": "other"}[k.cert]
 	return keyOfCert != "" && keyOfCert == k.sigKey && k.sigData == "right" && k.mangle == "intact"
 }
 
 var (
 	resps    = []string{"ok", "badStatus", "fault", "wrongType"}
-	certs    = []string{"own", "otherRsa", "wrongSize", "unparsable", "empty", "nonRsa"}
+	certs    = []string{"own", "otherRsa", "wrongSize", "unparsable", "empty", "nonRsa", "chainOwnOther", "chainOtherOwn"}
 	sigKeys  = []string{"own", "other"}
 	sigDatas = []string{"right", "wrongNonce", "wrongCert"}
 	mangles  = []string{"intact", "bitFlipped", "truncated", "empty"}
@@ -122,6 +123,18 @@ func ecCert() []byte {
 // A panic in the goroutine of Connect is recovered and reported; a panic in
 // any other goroutine kills this process and the parent sees which case had
 // no answer.
+// leafCert makes a self-signed NON-CA certificate for the key pair (the committed test certificates are CA:TRUE).
+func leafCert(kp *h.KeyPair) []byte {
+	tpl := &x509.Certificate{SerialNumber: big.NewInt(99), Subject: pkix.Name{CommonName: "verif-foreign-leaf"},
+		NotBefore: time.Now().Add(-time.Hour), NotAfter: time.Now().Add(24 * time.Hour),
+		KeyUsage: x509.KeyUsageDigitalSignature, BasicConstraintsValid: true, IsCA: false}
+	der, err := x509.CreateCertificate(rand.Reader, tpl, tpl, &kp.Key.PublicKey, kp.Key)
+	if err != nil {
+		panic(err)
+	}
+	return der
+}
+
 func child(keys string) {
 	log.SetOutput(io.Discard) // the client logs the verification error; keep stderr for panics
 	in := bufio.NewScanner(os.Stdin)
@@ -209,6 +222,11 @@ func one(k kase, keys string, seed uint64) (line, panicMsg string) {
 				cert = nil
 			case "nonRsa":
 				cert = ecCert()
+			case "chainOwnOther":
+				// the genuine certificate followed by a foreign end-entity (non-CA) certificate for the other key
+				cert = append(append([]byte{}, srvK.CertDER...), leafCert(othK)...)
+			case "chainOtherOwn":
+				cert = append(leafCert(othK), srvK.CertDER...)
 			}
 			signKey := srvK.Key
 			if k.sigKey == "other" {
@@ -606,6 +624,13 @@ func main() {
 			add(k)
 			k.cert = "otherRsa" // valid under the other certificate
 			add(k)
+			for _, ch := range []string{"chainOwnOther", "chainOtherOwn"} {
+				for _, sk := range sigKeys {
+					k := g
+					k.cert, k.sigKey = ch, sk
+					add(k)
+				}
+			}
 			for _, x := range sigDatas[1:] {
 				k := g
 				k.sigData = x
@@ -632,6 +657,7 @@ func main() {
 			for i := 0; i < o.N(6, 60); i++ {
 				k := kase{c.policy, c.mode, resps[rnd.Intn(4)], certs[rnd.Intn(6)], sigKeys[rnd.Intn(2)], sigDatas[rnd.Intn(3)],
 					mangles[rnd.Intn(4)], resps[rnd.Intn(4)], resps[rnd.Intn(4)], rnd.Intn(2)}
+				k.cert = certs[rnd.Intn(len(certs))]
 				if rnd.Chance(60) {
 					k.create = "ok"
 				}
@@ -664,6 +690,9 @@ func main() {
 			add(k)
 			k = g
 			k.cert = "nonRsa"
+			add(k)
+			k = g
+			k.cert, k.sigKey = "chainOwnOther", "other" // the attack of the foreign key behind the genuine certificate
 			add(k)
 			k = g
 			k.create = "fault"
